@@ -103,6 +103,8 @@ fixed(['C18', 'C17'], '3302c21', 'follow-up to ac19462: SLUFactor::assign copied
 fixed(['C13'], 'dd99e13', 'LPFhasKeyword matched a "]" of the input against the closing bracket of the keyword pattern ("Maximize]") and then searched for "]" beyond the string literal: global-buffer-overflow in the LP reader')
 fixed(['C13'], 'c5b4214', 'real MPS reader accepted nan / inf / overflowing numbers through atof(): non-finite coefficients, sides and bounds; exception XMAISM14 out of optimize(), heap-buffer-overflow in the bound flipping ratio test')
 
+fixed(['C06', 'C04'], '34e27f7', 'getBasisInd() read stale basis ids after rows/columns were removed while a basis is held (wrong or duplicate indices, SPxException "Invalid index"); a known finding of C06/C04 until the end of the work')
+
 # ------------------------------------------------------------------ open findings
 UND = r'(ABORT_CYCLING|RUNNING|UNKNOWN|ERROR|SINGULAR|NO_PROBLEM|NOT_INIT|OPTIMAL_UNSCALED_VIOLATIONS)'
 # --- simplex core
@@ -116,8 +118,6 @@ open_(['C04', 'C06', 'C16', 'C14'], r'(reuse\.[a-z\-]+|resolve\.status|[a-z]+\.r
 open_(['C06'], r'resolve\.(status\.[A-Z_]+|objective)\+nonbasic-free-row:.*',
       'after changeRange*/changeLhs/changeRhs made a nonbasic row free (or relaxed its active side to infinity) the warm-started solve keeps the row nonbasic with a nonzero dual and reports OPTIMAL in 0 iterations for an unbounded LP', regex=True,
       repro='history: min, solve, setIntParam(OBJSENSE,max), changeRangeReal(vec) making the only row free, optimize -> OPTIMAL 150 (LP is unbounded)')
-open_(['C06', 'C04'], r'(basis\.bind\.after[.\-]remove.*|basis\.bind\.after\.[A-Za-z(),]+\+earlier-row-removal:.*|exception\.remove.*Invalid.*|basis\.exception\.after-modification:.*)',
-      'after removing rows while the LP is loaded with a basis, getBasisInd() reads stale basis ids (wrong indices or SPxException "Invalid index") although hasBasis() stays true', regex=True)
 open_(['C05'], r'(mult\.(value|nonfinite)\.rep=row\.(scaled|unscaled)(\.internal)?|(invcol|solve)\.(residual|nonfinite)\.rep=row\.scaled(\.internal)?):.*',
       'row representation: multBasis returns wrong values with and without scaling (accumulates into a DSVector with duplicate indices, adds scaled and unscaled columns), and on a scaled LP getBasisInverseColReal (drops an spxLdexp result) and getBasisInverseTimesVecReal are wrong - upstream "@todo does not work correctly"; the other queries of the row representation are judged normally', regex=True)
 open_(['C05'], r'crash:.*(getBasisInverseColReal|getBasisInverseRowReal|getRowScaleExp).*',
